@@ -36,6 +36,12 @@ Proof.
   rewrite IH. destruct b; cbn; ring.
 Qed.
 
+Lemma vdot_mask_l_strip : forall vals m, vdot_mask_l m vals == qsum (strip vals m).
+Proof.
+  unfold vdot_mask_l. induction vals as [|v vals IH]; intros [|b m]; cbn; try reflexivity.
+  rewrite IH. destruct b; cbn; ring.
+Qed.
+
 Lemma qlen_cons {A} (x : A) l : qlen (x :: l) == 1 + qlen l.
 Proof. unfold qlen. cbn [length]. rewrite Nat2Z.inj_succ, <- Z.add_1_l, inject_Z_plus. reflexivity. Qed.
 Lemma qlen_nil {A} : @qlen A [] == 0. Proof. reflexivity. Qed.
@@ -124,7 +130,7 @@ Proof.
   - cbn [fold_left]. destruct (IH (avg_step acc b)) as [I1 I2]. rewrite I1, I2.
     unfold sall. cbn [map concat]. rewrite qsum_app, qlen_app. fold (sall bs).
     destruct b as [vals [m|]]; unfold avg_step, sreal, wf_s in *; cbn [fst snd] in *.
-    + rewrite vdot_mask_strip, (count_strip vals m Hb). split; ring.
+    + rewrite vdot_mask_l_strip, (count_strip vals m Hb). split; ring.
     + split; ring.
 Qed.
 
@@ -404,4 +410,124 @@ Proof.
   intros N H R. rewrite mime_fullbatch_closed by assumption.
   destruct (Qeq_bool (qlen (call cl)) 0) eqn:E; [|reflexivity].
   apply Qeq_bool_iff in E. apply qlen_zero in E. contradiction.
+Qed.
+
+(* ====================================================================== *)
+(* The kernels translated from models.py / mime.py / mime_lite.py /         *)
+(* agnostic_fed_avg.py equal the specification functions of the model.      *)
+(* ====================================================================== *)
+Lemma inj_sum a : NanQ.sum (inj a) = Some (qsum a).
+Proof. unfold inj. rewrite NanQ.sum_Some. f_equal; try (symmetry; apply qsum_fold_right). Qed.
+Lemma injm_map m : injm m = inj (map qm m).
+Proof. unfold injm, inj. now rewrite map_map. Qed.
+Lemma injm_sum m : NanQ.sum (injm m) = Some (count m).
+Proof. rewrite injm_map. apply inj_sum. Qed.
+Lemma inj_len a : nq_len (inj a) = Some (qlen a).
+Proof. unfold nq_len, inj, qlen. now rewrite map_length. Qed.
+Lemma inj_map2 (f : Q -> Q -> Q) a b : map2 (NanQ.lift2 f) (inj a) (inj b) = inj (map2 f a b).
+Proof. unfold inj. revert b. induction a as [|x a IH]; intros [|y b]; cbn; try reflexivity. now rewrite IH. Qed.
+Lemma inj_vdot a m : nq_vdot (inj a) (injm m) = Some (vdot_mask a m).
+Proof.
+  unfold nq_vdot, vdot_mask. rewrite injm_map. change NanQ.mul with (NanQ.lift2 Qmult).
+  rewrite inj_map2, inj_sum, map2_map_r. reflexivity.
+Qed.
+Lemma inj_vdot_l a m : nq_vdot (injm m) (inj a) = Some (vdot_mask_l m a).
+Proof.
+  unfold nq_vdot, vdot_mask_l. rewrite injm_map. change NanQ.mul with (NanQ.lift2 Qmult).
+  rewrite inj_map2, inj_sum, map2_map_l. reflexivity.
+Qed.
+
+Lemma t_scalar_loss_spec vals m r : t_scalar_loss vals m r = scalar_loss vals m r.
+Proof.
+  unfold t_scalar_loss, gen_scalar_loss, scalar_loss, batch_mean, add_reg, nq_mean.
+  destruct m as [m|]; cbn [option_map].
+  - rewrite injm_sum, inj_vdot. destruct r; reflexivity.
+  - rewrite inj_sum, inj_len. destruct r; reflexivity.
+Qed.
+
+Lemma t_avg_step_spec acc b : t_avg_step (somep acc) b = somep (avg_step acc b).
+Proof.
+  unfold t_avg_step, gen_avg_step, avg_step, somep. destruct b as [vals [m|]]; cbn [fst snd option_map].
+  - rewrite inj_vdot_l, injm_sum. reflexivity.
+  - rewrite inj_sum, inj_len. reflexivity.
+Qed.
+
+Lemma t_avg_fold bs : forall acc, fold_left t_avg_step bs (somep acc) = somep (fold_left avg_step bs acc).
+Proof. induction bs as [|b bs IH]; intros acc; [reflexivity|]. cbn [fold_left]. rewrite t_avg_step_spec. apply IH. Qed.
+
+Lemma t_avg_loss_spec bs r : t_avg_loss bs r = avg_loss bs r.
+Proof.
+  unfold t_avg_loss, avg_loss. change (NanQ.zero, NanQ.zero) with (somep (0, 0)). rewrite t_avg_fold.
+  unfold gen_finalize_avg, add_reg, somep. cbn [fst snd]. destruct r; reflexivity.
+Qed.
+
+Definition one_leaf (st : NanQ.t * NanQ.t) : list NanQ.t * NanQ.t := ([fst st], snd st).
+
+Lemma t_mime_step_spec dr st b : t_mime_step dr (one_leaf st) b = one_leaf (mime_step dr st b).
+Proof.
+  unfold t_mime_step, gen_mime_client_step, mime_step, one_leaf. cbn [fst snd].
+  rewrite t_scalar_loss_spec, injm_sum. reflexivity.
+Qed.
+
+Lemma t_mime_client_spec dr bs : t_mime_client dr bs = one_leaf (mime_client dr bs).
+Proof.
+  unfold t_mime_client, mime_client. change ([NanQ.zero], NanQ.zero) with (one_leaf (NanQ.zero, NanQ.zero)).
+  generalize (NanQ.zero, NanQ.zero). induction bs as [|b bs IH]; intros st; [reflexivity|].
+  cbn [fold_left]. rewrite t_mime_step_spec. apply IH.
+Qed.
+
+Lemma tpair_fold l : forall a, fold_left tpair_add (map one_leaf l) (one_leaf a) = one_leaf (fold_left pair_add l a).
+Proof. induction l as [|x l IH]; intros a; [reflexivity|]. cbn [map fold_left]. apply (IH (pair_add a x)). Qed.
+
+Lemma t_mime_fullbatch_spec lite dr cl : t_mime_fullbatch lite dr cl = mime_fullbatch dr cl.
+Proof.
+  unfold t_mime_fullbatch, mime_fullbatch.
+  rewrite (map_ext _ (fun bs => one_leaf (mime_client dr bs))) by (intros; apply t_mime_client_spec).
+  rewrite <- (map_map (mime_client dr) one_leaf).
+  assert (E : tpair_sum (map one_leaf (map (mime_client dr) cl)) = one_leaf (pair_sum (map (mime_client dr) cl))).
+  { destruct (map (mime_client dr) cl) as [|x l]; [reflexivity|]. cbn [map tpair_sum pair_sum]. apply tpair_fold. }
+  rewrite E. unfold one_leaf. cbn [fst snd]. destruct lite; reflexivity.
+Qed.
+
+Lemma inj_segment_sum vals ids nd : nq_segment_sum (inj vals) ids nd = inj (segment_sum vals ids nd).
+Proof.
+  unfold nq_segment_sum, segment_sum, inj. rewrite map_map. apply map_ext. intros d.
+  rewrite (qsum_fold_right _), <- (NanQ.sum_Some). f_equal.
+  revert ids. induction vals as [|v vals IH]; intros [|i ids]; cbn; try reflexivity.
+  rewrite IH. now destruct (i =? Z.of_nat d)%Z.
+Qed.
+
+Lemma inj_map2_plus a b : map2 NanQ.add (inj a) (inj b) = inj (map2 Qplus a b).
+Proof. apply (inj_map2 Qplus). Qed.
+
+Lemma t_domain_step_spec nd r st b :
+  t_domain_step nd r (inj (fst st), inj (snd st)) b =
+  (inj (fst (domain_step nd r st b)), inj (snd (domain_step nd r st b))).
+Proof.
+  destruct b as [[vals m] ids]. unfold t_domain_step, gen_domain_step, domain_step. cbn [fst snd].
+  rewrite injm_map. change NanQ.mul with (NanQ.lift2 Qmult). rewrite inj_map2, !inj_segment_sum, map2_map_r.
+  destruct r as [r|]; cbn [option_map].
+  - f_equal; [|apply inj_map2_plus]. rewrite <- inj_map2_plus. f_equal. unfold inj. rewrite !map_map. reflexivity.
+  - f_equal; apply inj_map2_plus.
+Qed.
+
+Lemma t_domain_metrics_spec nd r bs :
+  t_domain_metrics nd r bs = (inj (fst (domain_metrics nd r bs)), inj (snd (domain_metrics nd r bs))).
+Proof.
+  unfold t_domain_metrics, domain_metrics.
+  assert (E : repeat NanQ.zero nd = inj (repeat 0 nd)) by (unfold inj; clear; induction nd as [|n IHn]; cbn; [reflexivity|now rewrite <- IHn]).
+  rewrite E. change (inj (repeat 0 nd), inj (repeat 0 nd)) with (inj (fst (repeat 0 nd, repeat 0 nd)), inj (snd (repeat 0 nd, repeat 0 nd))).
+  generalize (repeat 0 nd, repeat 0 nd). induction bs as [|b bs IH]; intros st; [reflexivity|].
+  cbn [fold_left]. rewrite t_domain_step_spec. apply IH.
+Qed.
+
+Lemma translated_kernels :
+  (forall vals m r, t_scalar_loss vals m r = scalar_loss vals m r) /\
+  (forall bs r, t_avg_loss bs r = avg_loss bs r) /\
+  (forall dr bs, t_mime_client dr bs = ([fst (mime_client dr bs)], snd (mime_client dr bs))) /\
+  (forall lite dr cl, t_mime_fullbatch lite dr cl = mime_fullbatch dr cl) /\
+  (forall nd r bs, t_domain_metrics nd r bs = (inj (fst (domain_metrics nd r bs)), inj (snd (domain_metrics nd r bs)))).
+Proof.
+  split; [exact t_scalar_loss_spec|]. split; [exact t_avg_loss_spec|]. split; [exact t_mime_client_spec|].
+  split; [exact t_mime_fullbatch_spec|exact t_domain_metrics_spec].
 Qed.
